@@ -268,6 +268,34 @@ func run(c Case) (v vkit.Verdict) {
 	return v
 }
 
+// nearVerticalEdge recognises the inputs of known finding `near_vertical_edge` (the same root cause as in C01): a polygon
+// edge or line segment whose end points differ in x by a non-zero amount below 1e-12 of the extent; the sweep-line
+// clipper of the polyclip-go dependency mis-orders it.
+func nearVerticalEdge(c Case) bool {
+	pp := vkit.PolysOf(c.P)
+	scale := 0.0
+	var segs [][2]vkit.P2
+	for _, e := range vkit.EdgesOf(pp, 0) {
+		segs = append(segs, [2]vkit.P2{e.A, e.B})
+	}
+	for _, l := range c.Lines {
+		for i := 0; i+1 < len(l); i++ {
+			segs = append(segs, [2]vkit.P2{l[i], l[i+1]})
+		}
+	}
+	for _, sg := range segs {
+		for _, p := range sg {
+			scale = math.Max(scale, math.Max(math.Abs(float64(p[0])), math.Abs(float64(p[1]))))
+		}
+	}
+	for _, sg := range segs {
+		if dx := math.Abs(float64(sg[0][0]) - float64(sg[1][0])); dx != 0 && dx < 1e-12*scale {
+			return true
+		}
+	}
+	return false
+}
+
 func TestProp(t *testing.T) {
 	vkit.Main(t, vkit.Spec[Case]{
 		ID: "C14",
@@ -280,5 +308,6 @@ func TestProp(t *testing.T) {
 		Assumptions: []string{"general position enforced by filter", "oracle in vkit (SegIntersection, PIP) trusted"},
 		Gen:         gen,
 		Run:         run,
+		Known:       map[string]func(Case) bool{"near_vertical_edge": nearVerticalEdge},
 	})
 }
